@@ -46,6 +46,13 @@ M = [
     ("c07_pubrec_before_save", "C07", "broker/client.go", "\t\t// store received publish packet in session\n\t\terr := c.session.SavePacket(session.Incoming, publish)\n\t\tif err != nil {\n\t\t\treturn c.die(SessionError, err)\n\t\t}\n\n\t\t// prepare pubrec packet\n\t\tpubrec := packet.NewPubrec()\n\t\tpubrec.ID = publish.ID\n\n\t\t// signal qos 2 pubrec\n\t\terr = c.send(pubrec, true)\n\t\tif err != nil {\n\t\t\treturn c.die(TransportError, err)\n\t\t}", "\t\t// prepare pubrec packet\n\t\tpubrec := packet.NewPubrec()\n\t\tpubrec.ID = publish.ID\n\n\t\t// signal qos 2 pubrec\n\t\terr := c.send(pubrec, true)\n\t\tif err != nil {\n\t\t\treturn c.die(TransportError, err)\n\t\t}\n\n\t\t// store received publish packet in session\n\t\terr = c.session.SavePacket(session.Incoming, publish)\n\t\tif err != nil {\n\t\t\treturn c.die(SessionError, err)\n\t\t}"),
     ("c07_no_pubcomp_unknown", "C07 C20", "broker/client.go", "\t\t// immediately send pubcomp for missing packets\n\t\terr = c.send(pubcomp, true)\n\t\tif err != nil {\n\t\t\treturn c.die(TransportError, err)\n\t\t}\n\n\t\treturn nil", "\t\treturn nil"),
     ("c07_delete_after_pubcomp", "C07", "broker/client.go", "\t\t\terr := c.session.DeletePacket(session.Incoming, id)\n\t\t\tif err != nil {\n\t\t\t\t_ = c.die(SessionError, err)\n\t\t\t\treturn\n\t\t\t}\n\n\t\t\t// queue pubcomp\n\t\t\tselect {\n\t\t\tcase c.ackQueue <- pubcomp:\n\t\t\tcase <-c.tomb.Dying():\n\t\t\t}", "\t\t\t// queue pubcomp\n\t\t\tselect {\n\t\t\tcase c.ackQueue <- pubcomp:\n\t\t\tcase <-c.tomb.Dying():\n\t\t\t}\n\t\t\tgo func() { time.Sleep(time.Millisecond); _ = c.session.DeletePacket(session.Incoming, id) }()"),
+    # ---- C08
+    ("c08_qos1_not_stored", "C08", "broker/client.go", "\t\t// store packet if at least qos 1\n\t\tif publish.Message.QOS > 0 {", "\t\t// store packet if at least qos 1\n\t\tif publish.Message.QOS > 1 {"),
+    ("c08_no_dup", "C08", "broker/client.go", "\t\t\tpublish.Dup = true\n\t\t}\n\n\t\t// send packet\n\t\terr = c.send(pkt, true)", "\t\t\tpublish.Dup = false\n\t\t}\n\n\t\t// send packet\n\t\terr = c.send(pkt, true)"),
+    ("c08_reuse_clears_stored", "C08", "broker/backend.go", "\ts.temporaryQueue = make(chan *packet.Message, cap(s.temporaryQueue))\n", "\ts.temporaryQueue = make(chan *packet.Message, cap(s.temporaryQueue))\n\ts.storedQueue = make(chan *packet.Message, cap(s.storedQueue))\n"),
+    ("c08_session_present", "C08", "broker/client.go", "connack.SessionPresent = !pkt.CleanSession && resumed", "connack.SessionPresent = !pkt.CleanSession && (resumed || true)"),
+    ("c08_pubrec_deletes", "C08", "broker/client.go", "\t// overwrite stored publish with the pubrel packet\n\terr := c.session.SavePacket(session.Outgoing, pubrel)", "\t// overwrite stored publish with the pubrel packet\n\terr := c.session.DeletePacket(session.Outgoing, pubrel.ID)"),
+    ("c08_clean_keeps_stored", "C08", "broker/backend.go", "\t\t// delete any stored session\n\t\tdelete(m.storedSessions, id)\n\n\t\t// create new session", "\t\t// create new session"),
     # ---- C20
     ("c20_suback_reversed", "C20", "broker/client.go", "\t\tsuback.ReturnCodes[i] = subscription.QOS", "\t\tsuback.ReturnCodes[len(pkt.Subscriptions)-1-i] = subscription.QOS"),
     ("c20_ignore_unexpected", "C20", "broker/client.go", "\tdefault:\n\t\terr = c.die(ClientError, ErrUnexpectedPacket)\n\t}\n\n\t// return eventual error", "\tdefault:\n\t}\n\n\t// return eventual error"),
